@@ -1,6 +1,6 @@
 (* Comparison helpers for the generated correspondence cases of C03 / C16 (no proofs). *)
 From Coq Require Import String Ascii List Bool Arith.
-From LV Require Import Base.Prelude Shape.Chain Shape.Spec Shape.Transform Shape.Ebnf.
+From LV Require Import Base.Prelude Forest.Sppf Forest.Prio Shape.Chain Shape.Spec Shape.Transform Shape.Ebnf Shape.EarleyLeg.
 Import ListNotations.
 
 Fixpoint stree_eqb (a b : stree) : bool :=
@@ -108,9 +108,29 @@ Definition frs_check (c : frs_case) : bool :=
   wf_ebnf e && Nat.eqb (frs ka e) n && Nat.eqb n m && Nat.eqb (longest ka e) n.
 
 (* all C03 case kinds in one list (fewer generated files) *)
-Inductive c03_case := CaseCB (c : cb_case) | CaseE2E (c : e2e_case) | CaseFRS (c : frs_case).
+(* Earley / resolve leg: rule table of the compiled grammar (rule ids = indices), maybe_placeholders,
+   whether a ForestSumVisitor ran, the forest lark built and the tree Lark.parse returned *)
+Definition earley_case := (list rrec * bool * bool * Sppf.sym * stree)%type.
+
+Definition earley_check (c : earley_case) : bool :=
+  let '(rules, mp, summed, s, t) := c in
+  wfb s
+  && match (if summed then earley_resolve rules mp s else earley_resolve_none rules mp s) with
+     | Some [t'] => stree_eqb t t'
+     | _ => false
+     end
+  (* ... and it is the shape of the derivation the resolve-mode walk selects *)
+  && match (if summed then resolve s else resolve_none s) with
+     | [d] => wf_dtree mp (to_dtree rules d)
+              && match shape mp (to_dtree rules d) with Some t' => stree_eqb t t' | None => false end
+     | _ => false
+     end.
+
+Inductive c03_case := CaseCB (c : cb_case) | CaseE2E (c : e2e_case) | CaseFRS (c : frs_case)
+                    | CaseEARLEY (c : earley_case).
 Definition c03_check (c : c03_case) : bool :=
-  match c with CaseCB x => cb_check x | CaseE2E x => e2e_check x | CaseFRS x => frs_check x end.
+  match c with CaseCB x => cb_check x | CaseE2E x => e2e_check x | CaseFRS x => frs_check x
+             | CaseEARLEY x => earley_check x end.
 
 (* C16 ------------------------------------------------------------------------------------ *)
 (* the symbolic transformer: callbacks on the listed rule names / terminal types build tagged nodes *)
